@@ -205,6 +205,30 @@ Definition max_min_count (ser : list cell) : nat :=
   list_max (flat_map (fun sep => match sep_min_count ser sep with Some n => [n] | None => [] end)
                      possible_seps).
 
+(* ---- the multicategorical test, read without value_counts (specification level;
+        Props/C18.v proves it equal to above_thresh (max_min_count ser)) *)
+(* number of rows whose token set contains tok *)
+Definition rows_with_token (c : ascii) (tok : string) (ser : list cell) : nat :=
+  List.length (filter (fun x => existsb (String.eqb tok) (row_tokens c (cell_string x))) ser).
+
+(* there is at least one token and every token occurs in more than thresh rows *)
+Definition tokens_repeated (c : ascii) (ser : list cell) : bool :=
+  let toks := flat_map (fun x => row_tokens c (cell_string x)) ser in
+  match toks with
+  | [] => false
+  | _ => forallb (fun tok => above_thresh (rows_with_token c tok ser)) toks
+  end.
+
+Definition multicat_spec (ser : list cell) : bool :=
+  existsb (fun sep => match sep_char sep with Some c => tokens_repeated c ser | None => false end)
+          possible_seps.
+
+(* the string rows of the decision table at specification level (for the correspondence) *)
+Definition string_table_spec (ser : list cell) : stype :=
+  if above_thresh (min_count ser) then st_categorical
+  else if multicat_spec ser then st_multicategorical
+  else st_text_embedded.
+
 (* ---------------------------------------------------------------- list branch *)
 Definition is_num_elem (e : elem) : bool := match e with EStr _ => false | _ => true end.   (* isinstance(x, (int, float)) *)
 Definition is_float_elem (e : elem) : bool :=
